@@ -92,6 +92,9 @@ def schedule_scenarios(seed, n):
             st["step_size"] = rnd.choice([0.25, 0.5])
             st["momentum_decoherence_length"] = rnd.choice([1.0, 2.0])
             st["dynamic_step_size"] = rnd.random() < 0.5
+        if preset == "diag_nuts":
+            st["store_unconstrained"] = True
+            st["store_gradient"] = True
         if "flow" in preset:
             st["adapt_options"] = {"step_size_settings": sss,
                                    "step_size_window": rnd.choice([0.07, 0.25, 0.0, 0.5]),
@@ -105,6 +108,8 @@ def schedule_scenarios(seed, n):
                            "early_mass_matrix_switch_freq": rnd.choice([10, 3, 1]),
                            "mass_matrix_update_freq": rnd.choice([1, 1, 5, 20]),
                            "mass_matrix_window_growth": rnd.choice([1.0, 1.25, 1.5, 2.0])})
+            if preset == "diag_nuts":
+                ao["mass_matrix_options"] = {"store_mass_matrix": True, "use_grad_based_estimate": rnd.random() < 0.8}
             st["adapt_options"] = ao
         out.append({"preset": preset, "dim": dim, "density": dens, "settings": st, "seed": rnd.randrange(1 << 30),
                     "chain": rnd.randrange(3), "init": [rnd.uniform(-1, 1) for _ in range(dim)]})
